@@ -57,6 +57,42 @@ pub fn split_tuple(s: &str) -> Vec<String> {
     }
 }
 
+/// A REPL session whose own process is the receiver: a child sends it 2-4 numbered messages; the
+/// session takes one per line (with pauses in between), so some arrive while a line is still running
+/// and are left unread by it, others arrive while the session sleeps between lines.
+fn repl_mail(rng: &mut Rng) -> Scenario {
+    let n = 2 + rng.usize(3);
+    let base = rng.range(10, 500);
+    let sp = *rng.pick(&[0u32, 0, 6, 40]);
+    let mut h = crate::rng::Fnv::default();
+    h.u64(0x3a11);
+    h.u64(n as u64);
+    h.u64(sp as u64);
+    let sends: Vec<String> = (0..n).map(|i| if sp > 0 && i > 0 { format!("w{i} = [{sp}, 0] spin, {} to", base + i as u64) } else { format!("{} to", base + i as u64) }).collect();
+    let mut ops = vec![ClientOp::Line { session: 0, src: format!("{SPIN}, sndq = #(@'int) {{ =to, {}, 0 }}, c = &. @sndq, !#'int", sends.join(", ")) }];
+    for i in 1..n {
+        if rng.chance(1, 2) {
+            ops.push(ClientOp::Line { session: 0, src: format!("z{i} = [! [{}]], Ok", *rng.pick(&[0u32, 3, 30])) });
+        }
+        ops.push(ClientOp::Line { session: 0, src: "!#'int".to_string() });
+    }
+    ops.push(ClientOp::Line { session: 0, src: "!c".to_string() });
+    let want: Vec<String> = (0..n).map(|i| (base + i as u64).to_string()).collect();
+    Scenario {
+        family: "c04-repl-mail".into(),
+        ops,
+        modules: vec![],
+        files: Default::default(),
+        timing: true,
+        io: false,
+        fixed_faults: Default::default(),
+        expect: serde_json::json!({ "repl_mail": want }),
+        shape: h.0,
+        est_len: 120,
+        min_quantum: 0,
+    }
+}
+
 impl Property for C04 {
     fn id(&self) -> &'static str {
         "C04"
@@ -85,6 +121,9 @@ impl Property for C04 {
         c
     }
     fn generate(&self, rng: &mut Rng, _tier: Tier) -> Scenario {
+        if rng.chance(1, 14) {
+            return repl_mail(rng);
+        }
         let mut defs: Vec<String> = vec![SPIN.into(), COL.into(), COLT.into(), SND.into(), FWD.into(), SND2.into(), SRV.into(), CLI.into(), COL2.into(), FA.into(), VIC.into()];
         let fspin = *rng.pick(&[3u32, 12, 30]);
         defs.push(colf(fspin));
@@ -345,6 +384,25 @@ impl Property for C04 {
                     v.push(Violation::new("C04", "lost-wakeup", "chain-link-not-failed", format!("process {path} ended with {res}; every link of the await chain must fail with the victim's error"), r.steps));
                     break;
                 }
+            }
+            return v;
+        }
+        if let Some(lines) = scn.expect.get("repl_mail").and_then(|x| x.as_array()) {
+            // a session that receives, line by line, what a child sent it: every message exactly once, in
+            // send order, also the ones that arrived while an earlier line was still running
+            let got: Vec<String> = r
+                .ops
+                .iter()
+                .zip(r.outs.iter())
+                .filter(|(op, _)| matches!(op, ClientOp::Line { src, .. } if src.contains("!#'int")))
+                .map(|(_, out)| match out {
+                    Out::Value(s) => s.clone(),
+                    other => format!("{:?}", other),
+                })
+                .collect();
+            let want: Vec<String> = lines.iter().map(|x| x.as_str().unwrap_or("").to_string()).collect();
+            if got != want {
+                v.push(Violation::new("C04", "exactly-once", "mail-across-repl-lines", format!("the session's receiving lines yielded {:?}; the child sent {:?} in that order", got, want), r.steps));
             }
             return v;
         }
